@@ -17,7 +17,7 @@ PROPERTY = "C01"
 RULE = ("directed families (169 operator pairs x int/float/mixed operands, int-division sign grid, "
         "compound assignment x lvalue kind, ++/-- form x position, break/continue x loop kind x nesting, "
         "literal forms, re-initialised locals, assignment as value) run completely, plus seeded random "
-        "scalar-core programs x 4 input vectors.  A case (source, inputs) is non-trivial when the VM "
+        "scalar-core programs x 4 input vectors, at both optimisation settings (directed) / alternating (random).  A case (source, inputs) is non-trivial when the VM "
         "executed >= 3 binary opcodes and >= 1 branch and the oracle compared a value; directed operator "
         "pairs count when some input separates the two groupings.")
 TECHNIQUE = "differential runtime monitoring: real compiler+VM under a step observer vs reference interpreter on the generator's tree"
@@ -42,8 +42,9 @@ BINARY_OPS = {"ADD", "SUB", "MUL", "DIV", "MOD", "LG_AND", "LG_OR", "CMP_GT", "C
               "CMP_EQ", "CMP_NE"}
 
 
-def check_program(R, obs, name, module, fname, inputs, family, tree=None, require_accept=True):
-    res = diff.check_program(R, obs, name, module, fname, inputs, family, require_accept=require_accept)
+def check_program(R, obs, name, module, fname, inputs, family, tree=None, require_accept=True, optimize=False):
+    res = diff.check_program(R, obs, name, module, fname, inputs, family + (":O1" if optimize else ""), require_accept=require_accept,
+                             optimize=optimize)
     if not res["runnable"]:
         return
     src = res["source"]
@@ -81,8 +82,9 @@ def run_shard(tier, seed, shard, n, R):
         name, module, fname, inputs, tree = c
         fam = name.split(":")[0]
         # directed keys carry the case name: each one is a distinct mechanism
-        check_program(R, obs, name, module, fname, inputs, name if fam != "oppair" else "oppair:" + ":".join(name.split(":")[1:3]),
-                      tree=tree)
+        for opt in (False, True):
+            check_program(R, obs, name, module, fname, inputs, name if fam != "oppair" else "oppair:" + ":".join(name.split(":")[1:3]),
+                          tree=tree, optimize=opt)
         R.count("directed_cases")
         if i % 97 == shard:
             R.sample({"case": name, "source": print_module(module), "inputs": inputs[:2]})
@@ -97,7 +99,7 @@ def run_shard(tier, seed, shard, n, R):
             continue
         for f in [f for f in module.funcs if f.exported]:
             inputs = core.gen_inputs(rng, module, f, 4)
-            check_program(R, obs, "random:%d" % s, module, f.name, inputs, "random")
+            check_program(R, obs, "random:%d" % s, module, f.name, inputs, "random", optimize=bool(j % 2))
         R.count("random_programs")
         if j == 0:
             R.sample({"case": "random:%d" % s, "source": print_module(module)})
